@@ -3,26 +3,28 @@
    pair (or from any pair that satisfies it). *)
 From AF Require Import Lib.Bytes Lib.Path Lib.Ops Gen.Consts Model.MemFile Model.MemFs Model.WfOps Model.Union Model.Cow
   Model.Cache Proofs.MemFsBasics Proofs.MemFsPath Proofs.MemFsWF Proofs.MemFsStep Proofs.MemFsInv
-  Proofs.CacheProof Proofs.CacheInv Proofs.CacheFrames Proofs.CacheInvOps Proofs.CacheInvCopy Proofs.CacheInvPath.
+  Proofs.MemFsBelow Proofs.CacheProof Proofs.CacheInv Proofs.CacheFrames Proofs.CacheInvOps Proofs.CacheInvCopy Proofs.CacheInvPath.
 Local Open Scope Z_scope.
 
-(* a well-formed call through the cache: well-formed for the base (the ordinary POSIX preconditions of C01 on the
-   base's current tree; handle reads with a buffer length >= 0), and not an OpenFile of a base directory that is
-   not served as a hit (defect: copied like a file, EIO) *)
+(* a well-formed call through the cache: a call of the portable class of C01 for the BASE's current tree
+   (WfOps.wf_op: the ordinary POSIX preconditions, handle reads with a buffer length >= 0, or a creating call
+   whose name passes through a regular file — refused with ENOTDIR) *)
 Definition cwf_op (dur now : Z) (st : mst * mst * list chandle) (o : op) : bool :=
-  let '(sb, sl, _) := st in
-  WfOps.wf_op sb o && match o with OpenFile p _ _ => openfile_dir_ok dur now sb sl p | _ => true end.
+  let '(sb, _, _) := st in WfOps.wf_op sb o.
 
 Theorem CInv_step dur now st o :
   CInv st -> cwf_op dur now st o = true -> CInv (fst (cache_step m_step m_step dur now st o)).
 Proof.
-  destruct st as [[sb sl] tbl]. intros C Hwf. unfold cwf_op in Hwf. apply andb_true_iff in Hwf as [Hwf Hx].
-  destruct o.
-  - now apply cinv_create.
-  - now apply cinv_mkdir.
-  - now apply cinv_mkdirall.
-  - now apply cinv_open.
-  - now apply cinv_openfile.
+  destruct st as [[sb sl] tbl]. intros C Hwf. unfold cwf_op in Hwf.
+  assert (Hcase : WfOps.wf_op_ord sb o = true \/ wf_below sb o = true) by (now apply wf_op_cases).
+  assert (Hh : forall h, op_handle_of o = Some h -> WfOps.wf_op_ord sb o = true).
+  { intros h Ho. rewrite <- (wf_op_handle sb o); [exact Hwf | congruence]. }
+  destruct o; try (apply (cinv_handle_op dur now sb sl tbl _ h); [exact C | reflexivity | exact (Hh h eq_refl)]).
+  - destruct Hcase as [H|H]; [now apply cinv_create | now apply cinv_below_create].
+  - destruct Hcase as [H|H]; [now apply cinv_mkdir | now apply cinv_below_mkdir].
+  - destruct Hcase as [H|H]; [now apply cinv_mkdirall | now apply cinv_below_mkdirall].
+  - destruct Hcase as [H|H]; [now apply cinv_open | discriminate H].
+  - destruct Hcase as [H|H]; [now apply cinv_openfile | now apply cinv_below_openfile].
   - rewrite (cache_step_both m_step m_step dur now sb sl tbl (Remove p) eq_refl). now apply cinv_cache_both.
   - rewrite (cache_step_both m_step m_step dur now sb sl tbl (RemoveAll p) eq_refl). now apply cinv_cache_both.
   - rewrite (cache_step_both m_step m_step dur now sb sl tbl (Rename p q) eq_refl). now apply cinv_cache_both.
@@ -30,19 +32,6 @@ Proof.
   - rewrite (cache_step_both m_step m_step dur now sb sl tbl (Chmod p m) eq_refl). now apply cinv_cache_both.
   - rewrite (cache_step_both m_step m_step dur now sb sl tbl (Chown p u g) eq_refl). now apply cinv_cache_both.
   - rewrite (cache_step_both m_step m_step dur now sb sl tbl (Chtimes p t) eq_refl). now apply cinv_cache_both.
-  - now apply (cinv_handle_op dur now sb sl tbl _ h).
-  - now apply (cinv_handle_op dur now sb sl tbl _ h).
-  - now apply (cinv_handle_op dur now sb sl tbl _ h).
-  - now apply (cinv_handle_op dur now sb sl tbl _ h).
-  - now apply (cinv_handle_op dur now sb sl tbl _ h).
-  - now apply (cinv_handle_op dur now sb sl tbl _ h).
-  - now apply (cinv_handle_op dur now sb sl tbl _ h).
-  - now apply (cinv_handle_op dur now sb sl tbl _ h).
-  - now apply (cinv_handle_op dur now sb sl tbl _ h).
-  - now apply (cinv_handle_op dur now sb sl tbl _ h).
-  - now apply (cinv_handle_op dur now sb sl tbl _ h).
-  - now apply (cinv_handle_op dur now sb sl tbl _ h).
-  - now apply (cinv_handle_op dur now sb sl tbl _ h).
 Qed.
 
 (* sequences: every call comes with the value time.Now() has during it *)
